@@ -46,6 +46,8 @@ func c04Setup(env world.Env, g c04Group) {
 	a, b, r := w.A("A").Bech, w.A("B").Bech, w.A("R").Bech
 	mustOK(env.Deliver(rnstypes.NewMsgRegisterName(r, "refer.jkl", 2, "{}", false)), "register refer.jkl")
 	mustOK(env.Deliver(rnstypes.NewMsgRegisterName(a, "payer.jkl", 2, "{}", false)), "register payer.jkl")
+	// a registered provider, so that the collateral escrow holds tokens no purchase may touch
+	mustOK(env.Deliver(storagetypes.NewMsgInitProvider(w.A("feeder").Bech, "https://node.feeder.com", 1_000_000, "kb")), "InitProvider")
 	if g.feed != "" {
 		mustOK(env.Deliver(oracletypes.NewMsgCreateFeed(w.A("feeder").Bech, "jklprice")), "CreateFeed")
 		mustOK(env.Deliver(oracletypes.NewMsgUpdateFeed(w.A("feeder").Bech, "jklprice", `{"price":"`+g.feed+`","24h_change":"0"}`)), "UpdateFeed")
